@@ -83,8 +83,16 @@ def inline_aliases(body, params, keep=()):
                     mutated.add(base.id)
     aliases = {}
     loads = {}
+    # names bound by a comprehension are a scope of their own: their loads inside it are not loads of a local
+    comp_local = set()
     for n in walk_own(body):
-        if isinstance(n, ast.Name) and isinstance(n.ctx, ast.Load):
+        if isinstance(n, (ast.ListComp, ast.SetComp, ast.DictComp, ast.GeneratorExp)):
+            bound = {y.id for g_ in n.generators for y in ast.walk(g_.target) if isinstance(y, ast.Name)}
+            for x in ast.walk(n):
+                if isinstance(x, ast.Name) and isinstance(x.ctx, ast.Load) and x.id in bound:
+                    comp_local.add(id(x))
+    for n in walk_own(body):
+        if isinstance(n, ast.Name) and isinstance(n.ctx, ast.Load) and id(n) not in comp_local:
             loads[n.id] = loads.get(n.id, 0) + 1
     # names loaded inside lambdas count as well; names used by nested defs are never inlined
     closure_used = set()
@@ -114,6 +122,22 @@ def inline_aliases(body, params, keep=()):
     for n in walk_own(body):
         if isinstance(n, ast.Name) and isinstance(n.ctx, (ast.Store, ast.Del)) and id(n) in order:
             store_pos.setdefault(n.id, []).append(order[id(n)])
+    # in-place mutations of a container count as stores for expressions COMPUTED from it
+    mut_pos = {}
+    for n in walk_own(body):
+        base = None
+        if isinstance(n, ast.Call) and isinstance(n.func, ast.Attribute) and isinstance(n.func.value, ast.Name) \
+                and n.func.attr in ("append", "extend", "add", "update", "insert", "pop", "remove", "setdefault", "clear", "discard"):
+            base = n.func.value.id
+        elif isinstance(n, (ast.Assign, ast.AugAssign, ast.Delete)):
+            for t in (n.targets if isinstance(n, (ast.Assign, ast.Delete)) else [n.target]):
+                b_ = t
+                while isinstance(b_, (ast.Subscript, ast.Attribute)):
+                    b_ = b_.value
+                if isinstance(b_, ast.Name) and b_ is not t and isinstance(t, ast.Subscript):
+                    mut_pos.setdefault(b_.id, []).append(order.get(id(n), -1))
+        if base is not None:
+            mut_pos.setdefault(base, []).append(order.get(id(n), -1))
 
     def rhs_stable(st, val):
         here = max((order.get(id(x), -1) for x in ast.walk(st) if isinstance(x, (ast.stmt, ast.expr))), default=-1)
@@ -127,10 +151,13 @@ def inline_aliases(body, params, keep=()):
             if isinstance(x, ast.Name) and isinstance(x.ctx, ast.Load) and x.id not in inner_bound:
                 if any(pos > here for pos in store_pos.get(x.id, [])):
                     return False
+                if not _is_ref_chain(val) and any(pos > here for pos in mut_pos.get(x.id, [])):
+                    return False
         return True
 
     def loads_within(name, loop):
-        inside = sum(1 for x in ast.walk(loop) if isinstance(x, ast.Name) and isinstance(x.ctx, ast.Load) and x.id == name)
+        inside = sum(1 for x in ast.walk(loop) if isinstance(x, ast.Name) and isinstance(x.ctx, ast.Load) and x.id == name
+                     and id(x) not in comp_local)
         return inside == loads.get(name, 0)
 
     def collect(stmts, in_loop, in_try=None):
@@ -343,13 +370,29 @@ def inline_procedures(body, func, prog, depth=0):
                         new = _subst_body(hb2, mapping, suffix=f"__{h.name}")
                         out.extend(inline_procedures(new, func, prog, depth + 1))
                         done = True
-        if not done and not isinstance(st, (ast.FunctionDef, ast.ClassDef)):
+        rounds = 0
+        while not done and not isinstance(st, (ast.FunctionDef, ast.ClassDef)) and rounds < 6:
+            rounds += 1
+            progressed = False
             for call in _hoistable_calls(st):
                 h, mapping = _private_callee(call, func, prog)
                 if h is None or h is func:
                     continue
                 hb = _helper_body(h)
                 if len(hb) < 2 or not isinstance(hb[-1], ast.Return) or hb[-1].value is None:
+                    # a one-statement helper that merely delegates: replace by its expression and look again
+                    if len(hb) == 1 and isinstance(hb[0], ast.Return) and hb[0].value is not None and depth < 3:
+                        ret1 = _subst_body([ast.Expr(value=hb[0].value)], mapping)[0].value
+
+                        class R1(ast.NodeTransformer):
+                            def visit_Call(self, node):
+                                if node is call:
+                                    return ret1
+                                return self.generic_visit(node)
+                        st = R1().visit(st)
+                        ast.fix_missing_locations(st)
+                        progressed = True
+                        break
                     continue
                 if any(isinstance(x, (ast.Return, ast.Yield, ast.YieldFrom)) for x in walk_own(hb[:-1])):
                     continue
@@ -367,6 +410,10 @@ def inline_procedures(body, func, prog, depth=0):
                         return self.generic_visit(node)
                 st = R().visit(st)
                 ast.fix_missing_locations(st)
+                progressed = True
+                break
+            if not progressed:
+                break
         if not done:
             for fld in ("body", "orelse", "finalbody"):
                 sub = getattr(st, fld, None)
